@@ -1,5 +1,5 @@
 (* C12 — genesis export/import preserves state and subsequent behaviour. *)
-From C4E Require Import Base Minter Distributor Sig Genesis.
+From C4E Require Import Base Minter Distributor Sig Genesis Vest VestGenesis VestGenesisProofs.
 Open Scope Z_scope.
 
 (* minter: parameters, state and the whole state history come back exactly *)
@@ -55,3 +55,17 @@ Print Assumptions C12_vesting_periods_roundtrip.
 Theorem C12_refuted_K6 : exists w, sig_import (sig_export w) <> w.
 Proof. exact sig_export_import_refuted_K6. Qed.
 Print Assumptions C12_refuted_K6.
+
+(* ---------------------------------------------------------------------------------------------------------------
+   vesting pools: what InitGenesis stores is in key order, and exporting a store in key order and importing the
+   export gives the same store (every owner entry, every pool with all its fields) *)
+Theorem C12_vesting_pool_store_is_in_key_order :
+  forall g B s, vgenesis_init g B = Some s -> ksorted (vs_pools s).
+Proof. exact init_store_is_sorted. Qed.
+Print Assumptions C12_vesting_pool_store_is_in_key_order.
+
+Theorem C12_vesting_pools_export_import_is_identity :
+  forall s, ksorted (vs_pools s) ->
+  fold_left (fun st o => kset (go_owner o) (go_pools o) st) (vstore_export_owners s) [] = vs_pools s.
+Proof. exact pool_store_export_import_identity. Qed.
+Print Assumptions C12_vesting_pools_export_import_is_identity.
